@@ -178,6 +178,9 @@ def gen_scenario(rng, prof):
     if rng.random() < prof["two_runs"]:
         # the same run again on the same ModelChecker (C09), possibly with the other strategy/cache
         cbs = [l for l in lines if l.startswith("cb ")]
+        if rng.random() < 0.5:
+            # … without the network / crash / mode operations of the first run: whatever the first callback changed must be gone
+            cbs = [l for l in cbs if l.startswith("cb local")]
         lines += cbs[: len(cbs)]
         lines.append(f"run {rng.choice(prof['strategies'])} {rng.choice(prof['caches'])} {pr}")
     return lines
@@ -245,13 +248,14 @@ def split_runs(lines):
     runs, cur = [], None
     for l in lines:
         if l.startswith("run "):
-            cur = {"hdr": l, "E": [], "C": [], "T": [], "stat": None}
+            cur = {"hdr": l, "E": [], "C": [], "T": [], "stat": None, "net": None}
             runs.append(cur)
         elif cur is not None:
             if l.startswith("E "): cur["E"].append(l)
             elif l.startswith("C "): cur["C"].append(l)
             elif l.startswith("T "): cur["T"].append(l)
             elif l.startswith("stat "): cur["stat"] = l
+            elif l.startswith("NETS "): cur["net"] = l
     return runs
 
 
@@ -276,6 +280,8 @@ def compare(impl, model, scen_lines, fields=ALL_FIELDS, noids=False, seq=True):
             if a["hdr"] != b["hdr"].split(" evaluated")[0]:
                 return f"run {k}: impl `{a['hdr']}` model `{b['hdr']}`"
             continue
+        if a.get("net") != b.get("net") and a["E"] and b["E"]:
+            return f"run {k}: the checker's network settings at the start of the run differ:\n#   impl:  {a.get('net')}\n#   model: {b.get('net')}"
         multi = k < len(runlines) and runlines[k].startswith("runfrom")
         if multi and k > 0 and len(ri[k - 1]["C"]) <= 1 and len(rm[k - 1]["C"]) <= 1:
             multi = False   # one start state: nothing depends on the order of start states
